@@ -26,7 +26,7 @@ func vc12Seeds(dir string, rng *vh.Rng) ([]c12h.Seed, error) {
 		_ = os.Remove(path)
 		ll, err := NewLinkedLog(path)
 		if err != nil {
-			return nil, err
+			return seeds, err
 		}
 		var recs []uint64
 		prev := map[solana.PublicKey]indexes.OffsetAndSize{}
@@ -49,15 +49,15 @@ func vc12Seeds(dir string, rng *vh.Rng) ([]c12h.Seed, error) {
 					return nil
 				}, vals...)
 			if err != nil {
-				return nil, err
+				return seeds, err
 			}
 		}
 		if err := ll.Close(); err != nil {
-			return nil, err
+			return seeds, err
 		}
 		data, err := os.ReadFile(path)
 		if err != nil {
-			return nil, err
+			return seeds, err
 		}
 		seeds = append(seeds, c12h.Seed{Name: fmt.Sprintf("log%d", si), Data: data, Nums: recs})
 	}
